@@ -244,6 +244,14 @@ def run(ctx, widen=False):
         for b in cshort[:: (5 if thorough else 11)]:
             lines.append(f"ls\tcartesian|{S(a)}|{S(b)}"); exp.append(safe(lambda: E.cartesian_product(list(a), list(b), CTX)))
             lines.append(f"ls\tcartesianlazy|{S(a)}|{S(b)}"); exp.append(safe(lambda: E.cartesian_product(_LL(iter(list(a))), _LL(iter(list(b))), CTX)))
+    # zip (zip-longest, 0 for the missing side) and transpose of ragged matrices
+    for a in cshort[:: (3 if thorough else 9)]:
+        for b in cshort[:: (5 if thorough else 11)]:
+            lines.append(f"ls\tzip|{S(a)}|{S(b)}"); exp.append(safe(lambda: E.vy_zip(list(a), list(b), CTX)))
+    mats = [[list(r) for r in m] for m in itertools.product([x for x in lists if 1 <= len(x) <= 3][:: (7 if thorough else 23)], repeat=2)]
+    mats += [[[1, 2, 3], [4], [5, 6]], [[1], [2, 3]], [[1, 2], [3, 4], [5, 6]], [[7]]]
+    for m in mats:
+        lines.append("ls\ttranspose|" + ";".join(S(r) for r in m) + "|"); exp.append(safe(lambda: E.transpose(m, ctx=CTX)))
     out = ctx.driver(lines)
     ctx.count("corr:list-models", len(lines))
     for l, e, o in zip(lines, exp, out):
